@@ -84,6 +84,8 @@ pub struct Session {
     pub muts: BTreeMap<u64, MutMeta>,
     pub mut_by_index: BTreeMap<u16, u64>,
     pub vis: BTreeMap<u64, bool>,
+    /// Entities that were despawned while the most recent setting for this client was "hidden".
+    pub hidden_at_despawn: BTreeSet<u64>,
     pub o_sent: BTreeMap<u64, Vec<(u32, u32)>>,
     pub p_sent: BTreeMap<u64, u32>,
     pub p_taint: BTreeSet<u64>,
@@ -152,6 +154,7 @@ impl Session {
             muts: BTreeMap::new(),
             mut_by_index: BTreeMap::new(),
             vis: BTreeMap::new(),
+            hidden_at_despawn: BTreeSet::new(),
             o_sent: BTreeMap::new(),
             p_sent: BTreeMap::new(),
             p_taint: BTreeSet::new(),
@@ -552,7 +555,9 @@ impl Sim {
                     self.dead.insert(e.to_bits());
                     for c in &mut self.clients {
                         if let Some(s) = c.sess.as_mut() {
-                            s.vis.remove(&e.to_bits());
+                            if s.vis.remove(&e.to_bits()) == Some(false) {
+                                s.hidden_at_despawn.insert(e.to_bits());
+                            }
                         }
                     }
                     self.last_op = 2;
